@@ -21,17 +21,32 @@ for d in sorted(x for x in os.listdir(out) if re.fullmatch(re.escape(pid) + r'-\
     src = os.path.join(out, d)
     if recheck:
         patch = os.path.join(src, 'patch.diff')
-        rcp, op = sh(f'/verif/tools/try_patch.sh {patch} ' + ' '.join(checks), cwd='/verif')
+        if os.path.exists(os.path.join(src, 'patch.rebased.diff')):
+            patch = os.path.join(src, 'patch.rebased.diff')   # the original no longer applies after a later fix: commit
         caught = {}
-        for c in checks:
-            m = [l for l in op.splitlines() if f'property={c}' in l]
-            caught[c] = (m[0][:200] if m else 'no output: ' + op[-200:])
+        if use_wt:
+            sh(f'git -C {wt} checkout -- . ')
+            sh(f'git -C {wt} merge -q --ff-only main')
+            rc, o = sh(f'git -C {wt} apply {patch}')
+            if rc != 0:
+                print(d, 'patch does not apply to /repo main any more:', o.strip()[:150]); continue
+            for c in checks:
+                rcc, oc = sh(f'./check {c} --tier quick', cwd='/verif', env=dict(os.environ, VERIF_REPO=wt))
+                m = [l for l in oc.splitlines() if f'property={c}' in l and ('VIOLATION' in l or l.startswith('OK'))]
+                caught[c] = (m[0][:200] if m else 'no output: ' + oc[-200:])
+            sh('git -C /verif checkout -- lean/Pkgcore/Generated')
+            sh(f'git -C {wt} checkout -- . ')
+        else:
+            rcp, op = sh(f'/verif/tools/try_patch.sh {patch} ' + ' '.join(checks), cwd='/verif')
+            for c in checks:
+                m = [l for l in op.splitlines() if f'property={c}' in l]
+                caught[c] = (m[0][:200] if m else 'no output: ' + op[-200:])
         is_caught = any('VIOLATION' in v for v in caught.values())
         meta = json.load(open(os.path.join(src, 'meta.json')))
         if 'caught_by_check' in meta and meta.get('caught_by_check') != caught:
             meta.setdefault('earlier_verdicts', []).append(meta['caught_by_check'])
         meta['caught_by_check'] = caught; meta['caught'] = is_caught
-        meta.setdefault('confirmed_by_orchestrator', []).append('re-run after strengthening the check: tools/try_patch.sh patch.diff ' + ' '.join(checks) + ' -> ' + json.dumps(caught))
+        meta.setdefault('confirmed_by_orchestrator', []).append('re-run after strengthening the check (' + os.path.basename(patch) + (', scratch worktree' if use_wt else ', applied to /repo') + '): ./check ' + ' '.join(checks) + ' -> ' + json.dumps(caught))
         json.dump(meta, open(os.path.join(src, 'meta.json'), 'w'), indent=1)
         print(d, 'CAUGHT' if is_caught else 'MISSED', caught)
         continue
